@@ -213,6 +213,7 @@ class Interp:
         self.called_contracts = set()
         self.inlined = set()
         self.native_calls = set()
+        self.repo_models = set()
         self.opaque_used = set()
 
     # ------------------------------------------------------------------------------------------
@@ -336,6 +337,9 @@ class Interp:
         except TypeError:
             m = None
         if m is not None:
+            if str(getattr(f, '__module__', '') or '').startswith('bitcoinlib') and f is not self.top:
+                # an ASSUMED model of repository code: the proof of the contract under verification rests on it
+                self.repo_models.add('%s.%s' % (f.__module__, getattr(f, '__qualname__', getattr(f, '__name__', '?'))))
             return m(self, list(args), kwargs)
         if f in self.reg.ignore_calls:
             return None
